@@ -73,6 +73,10 @@ CHECKS["C16"] = ("E3-sysrun", "fault_enumeration",
   "Exhaustive enumeration of fault placements: every multiset of <=2 (thorough 3) transient faults over the (job, attempt) sites of a request x 4 fault kinds, and a deterministic module failure at every block in every module, both modes; jobs run through the real RemoteWorker (retry loop, classification) against the real tier2 processRange and the real error mappings of both tiers; streams compared with the fault-free run.",
   "The gRPC transport is an in-process fake stream; goroutine timing inside a run is not controlled; back-off shortened by overlay.",
   "exhaustive enumeration of fault sequences injected at the worker transport of the real implementation", "3/C16")
+CHECKS["C03"] = ("E3-sysrun", "exploration",
+  "Bounded-exhaustive over histories: every arrival sequence of n<=7 (thorough 8) blocks above genesis where each block's parent is any earlier block (fork tree x arrival order, n! sequences), x finality policies and modes for the smaller n, pushed through the real bstream fork resolver and the real Pipeline.ProcessBlock; after every new/undo step every store's content and size are compared with the reference execution of the current canonical chain, and a client emulator replays the data/undo messages. Plus the E4 store-level BFS over apply/undo histories with the content oracle.",
+  "Goroutine timing inside a run is not controlled; no tier2 back-fill in these runs; sequences the resolver refuses are skipped.",
+  "bounded exhaustive enumeration of fork histories on the real resolver+pipeline, reference-model oracle; explicit-state BFS for the store-level half", "3/C03")
 PENDING = {}
 def main():
     checks = []
